@@ -153,7 +153,9 @@ def _exp_shard(args):
 
 
 # (b) -------------------------------------------------------------------------------------------
-def _quantize_fold(values, in_dtype, in_scale, in_zp, out_dtype, out_scale, out_zp):
+def _quantize_fold(values, in_dtype, in_scale, in_zp, out_dtype, out_scale, out_zp, second=None):
+    """folds QUANTIZE(const).  With second=(scale, zp) the constant has a SECOND requantising consumer that is folded after the first one: the
+    values of that second fold are returned together with the constant's own values after both folds (a third reader would see those)."""
     core.bind_repo(need_codec=False)
     from ethosu.vela import tflite_graph_optimiser as tgo
     from ethosu.vela.data_type import DataType
@@ -174,9 +176,23 @@ def _quantize_fold(values, in_dtype, in_scale, in_zp, out_dtype, out_scale, out_
     op.set_output_tensor(ofm)
     op.run_on_npu = True
     op.set_ifm_ofm_shapes()
+    if second is not None:
+        ofm2 = Tensor([len(values)], dts[out_dtype], "o2")
+        ofm2.quantization = QuantizationParameters(scale_f32=np.float32(second[0]), zero_point=second[1])
+        ofm2.quantization.quant_min, ofm2.quantization.quant_max = info.min, info.max
+        op2 = Operation(Op.Quantize, "q2")
+        op2.add_input_tensor(ifm)
+        op2.set_output_tensor(ofm2)
+        op2.run_on_npu = True
+        op2.set_ifm_ofm_shapes()
     tgo.optimise_quantize(op, None, None)
     if op.type != Op.Const or ofm.values is None:
         return None
+    if second is not None:
+        tgo.optimise_quantize(op2, None, None)
+        if op2.type != Op.Const or ofm2.values is None:
+            return None
+        return [int(v) for v in np.asarray(ofm2.values).flatten()], [int(v) for v in np.asarray(ifm.values).flatten()]
     return [int(v) for v in np.asarray(ofm.values).flatten()]
 
 
@@ -198,6 +214,23 @@ def _quant_shard(args):
             if g != exp:
                 bad.append(("optimise_quantize", "int8", params, "const %d folded to %d, reference requantise gives %d" % (v, g, exp)))
                 break
+        # the same constant read by a second QUANTIZE (other output quantisation) and by a third operator: every fold starts from the constant
+        sec = (float(np.float32(in_scale)) * 0.75, max(-128, min(127, in_zp + 1)))
+        r2 = _quantize_fold(vals, "int8", in_scale, in_zp, "int8", out_scale, out_zp, second=sec)
+        n += len(vals)
+        if r2 is None:
+            bad.append(("optimise_quantize", "int8-second-consumer", params, "not folded"))
+        else:
+            got2, kept = r2
+            m2, e2 = Q.quantize_multiplier(float(np.float64(np.float32(in_scale)) / np.float64(np.float32(sec[0]))))
+            if kept != vals:
+                bad.append(("optimise_quantize", "int8-second-consumer", params, "the constant itself changed while its QUANTIZE consumers were folded: %s... became %s..." % (vals[:4], kept[:4])))
+            else:
+                for v, g in zip(vals, got2):
+                    exp = max(-128, min(127, Q.mbqm(v - in_zp, m2, e2) + sec[1]))
+                    if g != exp:
+                        bad.append(("optimise_quantize", "int8-second-consumer", params, "const %d folded to %d by the second consumer, reference requantise gives %d" % (v, g, exp)))
+                        break
     elif kind == "int16":
         in_scale, in_zp, out_scale, out_zp = params
         vals = list(range(-32768, 32768, 7)) + [32767]
